@@ -201,9 +201,12 @@ def _parse_int_prop(raw):
 HIST_SCRIPTS = [
     ["append", "append", "append", "delcur", "append", "delcur", "delcur", "append", "append"],
     ["append", "append", "append", "deloldest", "append", "delsnap", "append", "delcur", "append"],
-    ["append", "delfiles", "append", "delfiles", "append+expire", "append", "delcur", "append"],
+    ["append", "append", "append", "delfiles2", "append", "delfiles", "append+expire", "append", "delfiles2", "delcur", "append"],
     # a three-file manifest partially deleted TWICE (the second delete rewrites a manifest that is itself a rewrite)
     ["append3", "append", "delone", "append", "delone", "append", "delone"],
+    # a retention bound while the wall clock steps back: the snapshot being committed is not the newest by timestamp
+    ["append@1000", "append@2000", "retention:2", "append@3000", "append@500", "append@400", "delcur@400", "append@4000"],
+    ["prevmax:3", "append@1000", "append@1000", "append@1000", "append@1000", "prevmax:1", "append@1000", "retention:1", "append@900"],
 ]
 
 
@@ -225,6 +228,13 @@ def _histories(ctx, rep, model_ok):
                 for si in range(steps):
                     kind = script[si] if script else rng.choice(["append", "append", "append", "append+expire", "delfiles", "expire", "delsnap", "delcur", "retention", "prevmax"])
                     now = rng.choice([1000, 1000, 2000, 3000, 2500, 4000, 500])
+                    forced_raw = None
+                    multi_delete = None
+                    if "@" in kind:
+                        kind, now_ = kind.split("@")
+                        now = int(now_)
+                    if ":" in kind:
+                        kind, forced_raw = kind.split(":")
                     clock.now_ms = now
                     before_ids = {s.snapshot_id for s in t.metadata_manager.refresh().snapshots}
                     op_tok = None
@@ -253,14 +263,15 @@ def _histories(ctx, rep, model_ok):
                                 tx.expire_snapshots(cutoff)
                                 tx.commit()
                             op_tok = f"add:{now}:{next_id}:{cutoff}"
-                        elif kind == "delfiles":
+                        elif kind in ("delfiles", "delfiles2"):
                             cur_paths = tablekit.data_paths(t)
-                            if not cur_paths:
+                            if not cur_paths or (kind == "delfiles2" and len(cur_paths) < 2):
                                 continue
-                            victims = rng.sample(cur_paths, rng.randint(1, min(2, len(cur_paths))))
+                            victims = rng.sample(cur_paths, rng.randint(1, min(2, len(cur_paths)))) if kind == "delfiles" else list(cur_paths[:2])
                             form = rng.choice(["/", ""])
                             with t.new_transaction() as tx:
-                                if len(victims) > 1 and rng.random() < 0.6:
+                                if len(victims) > 1 and (kind == "delfiles2" or rng.random() < 0.6):
+                                    multi_delete = list(victims)
                                     for v in victims:           # several delete_files() operations in ONE transaction
                                         tx.delete_files([form + v])
                                 else:
@@ -289,7 +300,7 @@ def _histories(ctx, rep, model_ok):
                             op_tok = f"del:{victim}"
                         elif kind in ("retention", "prevmax"):
                             key = "datashard.snapshot.retention-count" if kind == "retention" else "write.metadata.previous-versions-max"
-                            raw = rng.choice(["1", "2", "3", 2, "0", "-1", "abc", None, "100"])
+                            raw = rng.choice(["1", "2", "3", 2, "0", "-1", "abc", None, "100"]) if forced_raw is None else forced_raw
                             import copy
                             b = t.metadata_manager.refresh()
                             n = copy.deepcopy(b)
@@ -320,7 +331,15 @@ def _histories(ctx, rep, model_ok):
                         break
                     bad, md = res
                     bad2, paths = invariants.observe_manifests(path, ghost, md)
-                    if kind in ("delfiles", "delone"):
+                    if kind in ("delfiles", "delfiles2") and multi_delete and model_ok:
+                        ordn = {p_: i_ + 1 for i_, p_ in enumerate(sorted(known_paths))}
+                        m_ = driver.ask(["tx.partition " + " ".join(f"d:{ordn[v_]}" for v_ in multi_delete if v_ in ordn)])[0]
+                        removed = sorted(ordn[p_] for p_ in known_paths if p_ not in paths and p_ in ordn)
+                        rep.corr_cases += 1
+                        want_ = sorted(int(x_) for x_ in m_.split("deletes=")[1].split(" ")[0].split(",") if x_)
+                        if want_ != removed:
+                            rep.diverge("tx.partition (several deletes queued in one transaction)", {"ops": multi_delete}, m_, removed)
+                    if kind in ("delfiles", "delfiles2", "delone"):
                         gone = set(trace[-2][1])
                         expect = [p for p in known_paths if p not in gone]
                         if sorted(paths) != sorted(expect):
